@@ -177,9 +177,15 @@ class SetEncoder(encoder.SequenceEncoder):
 
             namedTypes = value.componentType
 
-            for idx, component in enumerate(value.values()):
+            for idx, component in enumerate(
+                    namedTypes and self._getComponents(value, namedTypes) or
+                    value.values()):
                 if namedTypes:
                     namedType = namedTypes[idx]
+
+                    if component is None:
+                        # absent OPTIONAL or DEFAULT component
+                        continue
 
                     if namedType.isOptional and not component.isValue:
                             continue
